@@ -24,6 +24,33 @@ theorem ecomax_cfg (mixers : Bool) :
     Gen.setupFrames.map (·.1) = [57, 85, 49, 61, 54, 50, 92, 58] := by
   cases mixers <;> decide
 
+/-- **setup_source_facts**: what the machine assumes about `devices/__init__.py` / `devices/ecomax.py`, PROBED on the code
+on every run (Generated/Pipeline.lean: tools/gen_tables.py `_pipeline` runs the real coroutines) and pinned here: the
+device uses exactly the table `SETUP_FRAME_TYPES` and requests in its order; `EcoMAX.async_setup` starts the requests when
+the sensor data arrives and on nothing else; an unanswered request is transmitted exactly `retries` times (0, 1, 2, 3 → 0,
+1, 2, 3: no transmission at `retries = 0`, the machine's `R = 0` branch) and then raises `ValueError` whose argument 1 is the
+frame type; `async_setup` turns the failed requests into `frame_errors`, in order, and sets `loaded`. -/
+theorem setup_source_facts :
+    Gen.setupFramesOfDevice = Gen.setupFrames ∧ Gen.setupRequestOrder = Gen.setupFrames.map (·.1) ∧
+    Gen.setupGate = ["sensors"] ∧
+    (List.range 4).map probedTransmissions = [some 0, some 1, some 2, some 3] ∧
+    Gen.requestProbe.all (fun p => p.2.2.1 == "ValueError" && p.2.2.2 == 1) = true ∧
+    Gen.setupErrorsProbe = 1 := by decide
+
+/-- **product_waiters**: the handlers that wait for product information are exactly the ecoMAX's handler of the ecoMAX
+parameters and the mixers' handler of the mixer parameters — no thermostat handler, no other set-up kind -/
+theorem product_waiters :
+    (Gen.handlerWaitsProduct.filter (fun r => r.2.2.2 != 0)).map (fun r => (r.1, r.2.1)) =
+      [("EcoMAX", "ecomax_parameters"), ("Mixer", "mixer_parameters")] ∧
+    (Gen.setupFramesOfDevice.map fun p => (depOf false p.2, depOf true p.2)) =
+      [(false, false), (false, false), (true, true), (false, false), (false, false), (false, true), (false, false), (false, false)] := by
+  decide
+
+/-- the machine and the code agree on the number of transmissions of an unanswered request: `retries` of them -/
+theorem request_loop_matches (r : Nat) (h : r < 4) : probedTransmissions r = some r := by
+  have : r = 0 ∨ r = 1 ∨ r = 2 ∨ r = 3 := by omega
+  rcases this with rfl | rfl | rfl | rfl <;> decide
+
 /-- **completes**: once the sensor data has been seen, `retries` timer expiries — i.e. the clock
 reaching sensors + retries × timeout — are enough: the device is loaded, whatever was or was
 not answered in between. -/
